@@ -19,6 +19,19 @@ if ! go test -tags verif -c -o "$BIN" ./checks/ > "$ROOT/bin/build.$ID.log" 2>&1
   exit 3
 fi
 LIMIT=1500; [ "$TIER" = thorough ] && LIMIT=7200
+# thorough tier of the checks that have goroutines: an extra pass of a dedicated workload under the Go race detector
+case "$TIER:$ID" in thorough:C02|thorough:C18|thorough:C20)
+  RBIN="$ROOT/bin/checks.race.$ID.$$.test"; RLOG="$ROOT/bin/race.$ID.$$.log"
+  trap 'rm -f "$BIN" "$RBIN" "$RLOG".*' EXIT
+  if go test -race -tags verif -c -o "$RBIN" ./checks/ > "$ROOT/bin/build.race.$ID.log" 2>&1; then
+    GORACE="halt_on_error=0 log_path=$RLOG" VERIF_RACE_PASS=1 timeout -s QUIT 3000 "$RBIN" -test.run "^Test${ID}Race\$" -test.timeout 0 > "$ROOT/bin/race.$ID.out" 2>&1
+    grep -h "^RACE-PASS\|^VIOLATION" "$ROOT/bin/race.$ID.out"
+    python3 "$ROOT/tools/race_report.py" "$ROOT/bin/race.$ID.json" "$RLOG"
+    export VERIF_RACE_SUMMARY="$ROOT/bin/race.$ID.json"
+  else
+    echo "race build failed (see bin/build.race.$ID.log): race pass skipped"
+  fi ;;
+esac
 timeout -s QUIT "$LIMIT" "$BIN" -test.run "^Test${ID}\$" -test.timeout 0
 rc=$?
 if [ $rc -eq 124 ] || [ $rc -eq 131 ]; then echo "INCONCLUSIVE property=$ID reason=watchdog"; exit 3; fi
